@@ -136,7 +136,7 @@ func featureSetFor(on map[string]bool, all []string, style int) meta.FeatureSet 
 }
 
 func C11(c *core.Ctx) {
-	c.Rule = "complete enumeration of if-feature ASTs with ≤K operators (K=3 quick, K=4 thorough) over features {a,b,c} × 2 renderings × all 8 assignments (allow-list and deny-list configurations alternating, all-on for the all-true assignment), packed 400 guarded leaves per module; every token sequence up to length L over {a,b,(,),and,or,not} as a malformed stream (L=4 quick sample, L=5 thorough); every guardable statement kind; one deviation of every kind. non-trivial = expression with ≥1 operator; distinct by (rendering, assignment)"
+	c.Rule = "complete enumeration of if-feature ASTs with ≤K operators (K=3 quick, K=4 thorough) over features {a,b,c} × 2 renderings × all 8 assignments (allow-list and deny-list configurations alternating, all-on for the all-true assignment), packed 400 guarded leaves per module; every token sequence up to length L over {a,b,(,),and,or,not} as a malformed stream (L=4 quick sample, L=5 thorough); every guardable statement kind; one deviation of every kind, on nodes written in place and on one of two expansions of a grouping (the other expansion must not move). non-trivial = expression with ≥1 operator; distinct by (rendering, assignment)"
 	c.Assumptions = append(c.Assumptions,
 		"the Lean tokenizer model (blanks separate, parentheses are single tokens) is tied to the Go tokenizer only through the renderings generated here (regular and irregular blanks, parentheses with and without blanks)",
 		"parseRFC (recursive-descent recogniser, Lean, not proved complete) labels token sequences as inside/outside the RFC 7950 grammar")
@@ -421,6 +421,15 @@ const c11devBase = `module d { namespace "urn:d"; prefix d; revision 2020-01-01;
  }
  rpc op { input { leaf i { type string; } } }
  notification ev { leaf n { type string; } }
+ grouping g {
+   leaf ga { type string; units "kg"; default "x"; must "../gb"; must "../gc"; must "../gl"; }
+   leaf gb { type int32; }
+   leaf gc { type string; }
+   leaf-list gll { type string; min-elements 1; max-elements 5; }
+   list gl { key k; unique "u1"; unique "u2 u3"; unique "u4"; leaf k { type string; } leaf u1 { type string; } leaf u2 { type string; } leaf u3 { type string; } leaf u4 { type string; } }
+ }
+ container one { uses g; }
+ container two { uses g; }
  %s
 }`
 
@@ -439,6 +448,21 @@ func c11deviations(c *core.Ctx) {
 		change  map[string]string // prop -> expected value ("" = absent)
 	}
 	devs := []dev{
+		// targets that are one of two expansions of a grouping: the other expansion (and the grouping's other uses) must not move
+		{`deviation /one/gl { deviate delete { unique "u1"; } }`, "/one/gl", false, map[string]string{"unique": "u2 u3|u4"}},
+		{`deviation /one/gl { deviate delete { unique "u2 u3"; } }`, "/one/gl", false, map[string]string{"unique": "u1|u4"}},
+		{`deviation /two/gl { deviate delete { unique "u4"; } }`, "/two/gl", false, map[string]string{"unique": "u1|u2 u3"}},
+		{`deviation /one/gl { deviate add { unique "k u4"; } }`, "/one/gl", false, map[string]string{"unique": "u1|u2 u3|u4|k u4"}},
+		{`deviation /one/gl { deviate add { max-elements 3; } }`, "/one/gl", false, map[string]string{"max-elements": "3"}},
+		{`deviation /two/ga { deviate delete { must "../gb"; } }`, "/two/ga", false, map[string]string{"must": "../gc ;; ../gl"}},
+		{`deviation /one/ga { deviate delete { must "../gc"; must "../gl"; } }`, "/one/ga", false, map[string]string{"must": "../gb"}},
+		{`deviation /one/ga { deviate add { must "../gll"; } }`, "/one/ga", false, map[string]string{"must": "../gb ;; ../gc ;; ../gl ;; ../gll"}},
+		{`deviation /one/ga { deviate replace { units "g"; } }`, "/one/ga", false, map[string]string{"units": "g"}},
+		{`deviation /two/ga { deviate delete { default "x"; } }`, "/two/ga", false, map[string]string{"default": ""}},
+		{`deviation /one/ga { deviate replace { type int8; } }`, "/one/ga", false, map[string]string{"type": "int8", "format": "int8"}},
+		{`deviation /two/gll { deviate replace { max-elements 9; } }`, "/two/gll", false, map[string]string{"max-elements": "9"}},
+		{`deviation /one/gb { deviate add { default "4"; } }`, "/one/gb", false, map[string]string{"default": "4"}},
+		{`deviation /one/gl { deviate not-supported; }`, "/one/gl", true, nil},
 		{`deviation /top/c { deviate not-supported; }`, "/top/c", true, nil},
 		{`deviation /top/sub { deviate not-supported; }`, "/top/sub", true, nil},
 		{`deviation /op { deviate not-supported; }`, "/op", true, nil},
